@@ -200,6 +200,22 @@ package parse
 //@   maypanic
 //@   assert @store:F.sysl.Endpoint.Stmt [call-recorded-on-the-published-event] len(stored) > 0 ==> in(eventName, srcApp.Endpoints) && target == srcApp.Endpoints[eventName]
 
+// Leaving an endpoint block (REST method, simple endpoint, event, subscription) leaves no endpoint current: the end-of-
+// block bookkeeping of the next construct (which stamps the end position of `Endpoints[endpointName]`) cannot reach an
+// endpoint that was closed earlier, possibly in another file.
+//@ func (*TreeShapeListener).ExitMethod_def
+//@   maypanic
+//@   ensures [no-endpoint-is-current-afterwards] s.endpointName == ""
+//@ func (*TreeShapeListener).ExitSimple_endpoint
+//@   maypanic
+//@   ensures [no-endpoint-is-current-afterwards] s.endpointName == ""
+//@ func (*TreeShapeListener).ExitEvent
+//@   maypanic
+//@   ensures [no-endpoint-is-current-afterwards] s.endpointName == ""
+//@ func (*TreeShapeListener).ExitSubscribe
+//@   maypanic
+//@   ensures [no-endpoint-is-current-afterwards] s.endpointName == ""
+
 // The primary key of a table declared over several blocks is only ever extended: the key holder is created when
 // there is none, and a block adds its own ~pk fields behind the key columns recorded so far.
 //@ func (*TreeShapeListener).ExitTable
